@@ -11,6 +11,7 @@ CONSTANTS
   DecFails = {FALSE, TRUE}
   MaxCb = 1
   MaxTrig = 2
+  MaxFire = 3
   CbOn = {1, 4}
   TimerOn = {1}
   Ops = {"request", "complete", "abort", "cabort", "qabort", "gabort", "settle"}
